@@ -226,7 +226,7 @@ pub struct Driver<SP: StorageProvider> {
     pub persp: Option<SP::Perspective>,
     counter: u64,
     last: Option<Last>,
-    tag: &'static str,
+    pub tag: &'static str,
 }
 
 impl<SP: StorageProvider> Driver<SP> {
@@ -394,6 +394,7 @@ fn exec_inner(cfg: &Cfg<'_>, hist: &[Op], check_from: usize) -> Result<(u128, In
     let mut d_file = if cfg.with_file {
         cfg.stats.file_executions.fetch_add(1, Relaxed);
         let dir = cfg.scratch.join(format!("t{}", mcx::rayon::current_thread_index().map(|i| i as i64).unwrap_or(-1)));
+        let _ = std::fs::remove_dir_all(&dir);
         std::fs::create_dir_all(&dir).map_err(|e| format!("scratch: {e}"))?;
         let fm = FileManager::new(dir.as_path()).map_err(|e| format!("FileManager::new: {e:?}"))?;
         Some(Driver::new(LinearStorageProvider::new(fm), "file"))
@@ -517,6 +518,11 @@ fn preamble(family: char, p: usize) -> Vec<Op> {
         let op = match family {
             // A: one insert per segment, cycling through the keys
             'A' => Op::Ins(0, (i % 7) as u8, 0),
+            // C: two commands per segment (so a mid-segment reopen is enabled at once)
+            'C' => {
+                h.extend([Op::Ins(0, (i % 7) as u8, 0), Op::Cmd, Op::Del(0, ((i + 6) % 7) as u8), Op::Ins(1, (i % 7) as u8, 1), Op::Cmd, Op::Seg]);
+                continue;
+            }
             // B: value, newer value, tombstone for the same key, then the next key
             _ => match i % 3 {
                 0 => Op::Ins(0, ((i / 3) % 7) as u8, 0),
@@ -595,6 +601,9 @@ pub fn run(args: &Args) {
         for p in 1..=7 {
             starts.push(preamble('A', p));
             starts.push(preamble('B', p));
+            if p <= 4 {
+                starts.push(preamble('C', p));
+            }
         }
         let d = if quick { 2 } else { 3 };
         results.push(run_space(&mut rep, &flavour, "exact/full-alphabet", &full, starts, d, false, false, &stats, &deadline, scratch.path()));
@@ -607,10 +616,10 @@ pub fn run(args: &Args) {
         results.push(run_space(&mut rep, &flavour, "exact/full-alphabet+FileManager", &full, starts, d, false, true, &stats, &deadline, scratch.path()));
         // deep space: merged BFS
         let deep = Alphabet::restricted(1, &[0, 2, 3], 2);
-        let d = if quick { 7 } else { 9 };
-        results.push(run_space(&mut rep, &flavour, "deep/1 name x keys {[],[a],[a,\"\"]} x 2 values", &deep, vec![vec![], preamble('B', 2)], d, true, false, &stats, &deadline, scratch.path()));
+        let d = if quick { 6 } else { 8 };
+        results.push(run_space(&mut rep, &flavour, "deep/1 name x keys {[],[a],[a,\"\"]} x 2 values", &deep, vec![vec![], preamble('B', 2), preamble('B', 3)], d, true, false, &stats, &deadline, scratch.path()));
         let deep2 = Alphabet::restricted(2, &[2, 4, 5, 6], 1);
-        let d = if quick { 5 } else { 7 };
+        let d = if quick { 5 } else { 6 };
         results.push(run_space(&mut rep, &flavour, "deep/2 names x keys {[a],[a,a],[ab],[a,ab]} x 1 value", &deep2, vec![vec![], preamble('A', 3)], d, true, false, &stats, &deadline, scratch.path()));
     } else {
         // flavour P: every sequence of length ≤ 3 after a preamble of 0..18 one-write segments
@@ -619,6 +628,9 @@ pub fn run(args: &Args) {
             starts.push(preamble('A', p));
             if p > 0 {
                 starts.push(preamble('B', p));
+            }
+            if [1, 2, 15, 16, 17].contains(&p) {
+                starts.push(preamble('C', p));
             }
         }
         let d = if quick { 2 } else { 3 };
